@@ -45,6 +45,12 @@ strengthened = {
  "C19-7": "missed at first: every goroutine parsed a private copy; inputs are now adjacent sub-slices of one shared buffer (with NUL-bearing documents in every batch) and the buffer is compared afterwards",
  "C20-7": "missed at first: canonical documents only used '-' bullets; the marker characters the formatter copies through (bullet, ordered delimiter, emphasis character) are now free",
  "C20-8": "missed at first: no code line with a fence run followed by white space; such lines added to the model's code content, which also exposed two genuine formatter defects (section 12)",
+ "C08-10": "missed at first: no injected error wrapped io.EOF; error values that unwrap to io.EOF added, and a terminal error that is plain io.EOF after a fault is a violation",
+ "C12-10": "missed at first: definitions were always written on one line; destination / title on the following line, angle-bracket destinations and CRLF / CR documents added",
+ "C14-9": "missed at first: no input ended in a fence line whose info string ends in a backtick; enumerated check last_lines (39 contexts x 130 last lines x 3 line-ending styles) added",
+ "C15-9": "missed at first by C15 (whose recognizer is unchanged; caught by C06): the model lengthened the fence for any fence-like content; it may now use the shortest fence by the exact closing-fence rule, with indented fence-like content lines",
+ "C17-10": "missed at first by C17 (caught by C10): C17 never set IgnoreRaw; configuration added",
+ "C18-9": "missed at first: documents without blocks were skipped; walks over the zero Node of an empty document (virtual root and library defaults) added",
  "C19-4": "missed at first: batches had no long destination that needs percent-encoding; rare-path constructs added to every batch",
 }
 rows = []
